@@ -19,6 +19,8 @@ type c17Case struct {
 	Motion string `json:"motion"`
 	Count  string `json:"count"`
 	Visual bool   `json:"visual"`
+	// keys typed in both sessions before the cursor is placed: an operator started and cancelled
+	Prelude string `json:"prelude,omitempty"`
 }
 
 var c17Buffers = []string{"echo hello world", "git commit -m 'x y' --flag", "foo(bar[1]) {baz} <tag>", "a \"quoted (nested) str\" b", "one two  three   four", "x", "ab", "  indented text here", "path/to/file.txt;next",
@@ -51,6 +53,12 @@ func c17Gen(r *rand.Rand, tier string, idx int) any {
 		c.Count = fmt.Sprint(2 + r.Intn(2))
 	}
 	c.Visual = r.Intn(4) == 0 && c.Motion != "SAME"
+	if r.Intn(4) == 0 {
+		c.Inputrc += "set blink-matching-paren on\n"
+	}
+	if r.Intn(5) == 0 {
+		c.Prelude = pick(r, []string{"y\x1b", "d\x1b", "c\x1b\x1b", "y\x1bd\x1b"})
+	}
 	return c
 }
 
@@ -63,6 +71,9 @@ func c17Session(env *fw.Env, c *c17Case, op string) (before, after *sess.Snap, r
 	add("\x1b", "esc")
 	for i := 0; i < len(c17Buffers)-c.Entry; i++ {
 		add("k", "recall")
+	}
+	for _, k := range c.Prelude {
+		add(string(k), "prelude")
 	}
 	add("0", "bol")
 	for i := 0; i < c.Col; i++ {
@@ -111,7 +122,7 @@ func c17Run(env *fw.Env, raw json.RawMessage) fw.Outcome {
 	var c c17Case
 	unmarshal(raw, &c)
 	var o fw.Out
-	ctx := fmt.Sprintf("buffer=%q col=%d count=%q motion=%q visual=%v", c17Buffers[c.Entry], c.Col, c.Count, c.Motion, c.Visual)
+	ctx := fmt.Sprintf("buffer=%q col=%d count=%q motion=%q visual=%v prelude=%q blink=%v", c17Buffers[c.Entry], c.Col, c.Count, c.Motion, c.Visual, c.Prelude, strings.Contains(c.Inputrc, "blink-matching-paren on"))
 	bA, aA, resA, _ := c17Session(env, &c, "d")
 	if !stdFailures(&o, resA, ctx+" operator=d") {
 		o.O.Sample = map[string]any{"ctx": ctx}
